@@ -3,7 +3,8 @@ import ScriggoV.Model.Lexer
 compared with the lexical state of a reference ECMAScript scanner (strings, template literals,
 regular-expression literals with the usual "previous token" rule, comments). The full statement
 `ScriptCtxAgree` is false of today's lexer; it is refuted on b-c04c21's lexer model
-(`Model/Lexer`, tied to lexer.go by C04/C21's correspondence) by three concrete scripts. No
+(`Model/Lexer`, tied to lexer.go by C04/C21's correspondence) by two concrete scripts (a third, a
+string ending in an escaped backslash, has been repaired: `backslashWitness_ctx` now states agreement). No
 positive (`_partial`) theorem is proved: agreement on the class without regex and template literals is covered
 only by the end-to-end oracle of go/props/c06. -/
 namespace ScriggoV.Slots.LexerWitness
@@ -106,8 +107,11 @@ theorem templateWitness_ctx :
     holeCtxs (scriptOpen ++ templateWitness ++ holeClose) = some [ContextJSString] ∧
     ctxOf (jsRef templateWitness) = ContextJS := by decide +kernel
 
+/-- REPAIRED (8287339, finding string-escaped-backslash-desync closed): after a string literal that
+ends in an escaped backslash the model lexer is in code position, as the reference is (it was in
+JSString: `\"` was read as an escaped quote) -/
 theorem backslashWitness_ctx :
-    holeCtxs (scriptOpen ++ backslashWitness ++ holeClose) = some [ContextJSString] ∧
+    holeCtxs (scriptOpen ++ backslashWitness ++ holeClose) = some [ContextJS] ∧
     ctxOf (jsRef backslashWitness) = ContextJS := by decide +kernel
 
 /-- a benign script on which the two agree (the statement is not vacuous): `var x = ` and
